@@ -301,6 +301,18 @@ func TestVerif_C20_SplitCombine(t *testing.T) {
 			}
 			got, err := Combine(parts)
 			r.Count("combines", 1)
+			// the caller's slice must still hold the shares it was handed, and combining it again gives the same answer
+			for i, j := range idx {
+				if len(parts[i]) != len(shares[j]) || !bytes.Equal(parts[i], shares[j]) {
+					r.Violate("C20-combine-changed-the-callers-shares", id, fmt.Sprintf("after Combine, element %d of the slice handed in is %x, it was share %d = %x", i, parts[i], j, shares[j]), nil)
+					return false
+				}
+			}
+			if got2, err2 := Combine(parts); (err == nil) != (err2 == nil) || !bytes.Equal(got, got2) {
+				r.Violate("C20-combine-changed-the-callers-shares", id, fmt.Sprintf("combining the same slice twice gave %x (err=%v) then %x (err=%v)", got, err, got2, err2), nil)
+				return false
+			}
+			r.Count("combines_repeated_on_same_slice", 1)
 			if expectSecret {
 				if err != nil || !bytes.Equal(got, secret) {
 					r.Violate("C20-reconstruct", id, fmt.Sprintf("subset %v of size %d (t=%d) gave %x err=%v want %x", idx, len(idx), th, got, err, secret), map[string]any{"shares": shares})
@@ -448,6 +460,7 @@ func TestVerif_C20_SplitCombine(t *testing.T) {
 	}
 	r.Require("combines", 1000)
 	r.Require("combine_unequal_generated", 100)
+	r.Require("combines_repeated_on_same_slice", 1000)
 }
 
 // Statistical monitor (reported as such): coefficients of fresh polynomials are
